@@ -104,6 +104,8 @@ def walk(cal_id, a, b, acc: Acc, warm=WARM):
                     if not (ld > pld and pld < ld and ld >= pld and pld <= ld and ld != pld and not (ld == pld)
                             and not (ld < pld) and not (pld > ld) and ld.compare_to(pld) > 0 and pld.compare_to(ld) < 0):
                         V("order", y, "%d-%d-%d (day %d) is not strictly after %d-%d-%d" % (y, m, d, n, py_, pm, pd), n)
+                    if LocalDate.max(pld, ld) is not ld or LocalDate.max(ld, pld) is not ld or LocalDate.min(pld, ld) is not pld or LocalDate.min(ld, pld) is not pld:
+                        V("order-max-min", y, "LocalDate.max/min of day %d (%d-%d-%d) and day %d (%d-%d-%d) do not pick the later/earlier day" % (n - 1, py_, pm, pd, n, y, m, d), n)
                     if not (pld.plus_days(1) == ld) or not (ld.plus_days(-1) == pld):
                         V("successor", y, "plus_days(+-1) does not connect day %d and day %d" % (n - 1, n), n)
                     if Period.days_between(pld, ld) != 1:
@@ -245,6 +247,12 @@ def _months_shard(arg):
                                 lambda m=m, dim=dim, yoe=yoe, era=era: LocalDate(yoe, m, dim + 1, cal, era), {"calendar": cal_id, "ymd": [y, m, dim + 1]})
             recs.sort()
             for (f1, l1, m1), (f2, l2, m2) in zip(recs, recs[1:]):
+                # the static helpers must follow the day line too (month NUMBERS need not be monotonic in time: Hebrew Scriptural)
+                a_, b_ = impl.date_from_days(cal, l1), impl.date_from_days(cal, f2)
+                acc.count(evaluations=2)
+                if LocalDate.max(a_, b_) is not b_ or LocalDate.min(b_, a_) is not a_ or not (a_ < b_):
+                    acc.violation("C01/%s/order-max-min/y%d" % (cal_id, y), "LocalDate.max/min/< of the last day of month %d and the first day of month %d of year %d disagree with the day line" % (m1, m2, y),
+                                  {"calendar": cal_id, "days": [l1, f2]})
                 if f2 != l1 + 1:
                     acc.violation("C01/%s/month-abut/y%d" % (cal_id, y), "months %d and %d of year %d do not abut (%d then %d)" % (m1, m2, y, l1, f2), {"calendar": cal_id, "year": y})
             diy = cal.get_days_in_year(y)
